@@ -41,6 +41,7 @@ class ProducerScenario:
         self.stop_returned = None
         self.wrap_seen = False
         self.batch_futs = {}  # first value -> values of the batch (send_batch scenarios)
+        self.batch_values = set()
 
     def fail(self, oracle, sig, msg):
         self.violations.append((oracle, sig, msg))
@@ -55,6 +56,7 @@ class ProducerScenario:
         self.cluster = cl
         world.app_eager = p.get("baseline", "net") == "app"
         world.p_enabled = True
+        world.k_mid = bool(p.get("k_mid", True))
         cl.fault_kinds = tuple(p.get("faults", ("drop-before", "drop-after", "lose", "err")))
         cl.fault_apis = set(p.get("fault_apis", ("Produce", "Metadata")))
         cl.err_codes = {k: list(v) for k, v in p.get("errs", {"Produce": [6, 5, 3, 7, 19, 20]}).items()}
@@ -187,6 +189,7 @@ class ProducerScenario:
         for j, value, ts in vals:
             self.accepted.append((i, j, part, value, None, (), ts, world.now()))
         first = vals[0][1]
+        self.batch_values.update(v for _, v, _ in vals)
         self.batch_futs[first] = [v for _, v, _ in vals]
         world.record("accepted-batch", first, part, len(vals))
         self.futs[first] = fut
@@ -194,11 +197,13 @@ class ProducerScenario:
 
     async def sender(self, i, prog):
         world = self.world
-        if self.p.get("send_batch"):
+        sb = self.p.get("send_batch")
+        if sb is True or (isinstance(sb, (list, tuple)) and i in sb):
             return await self.batch_sender(i, prog)
+        pad = b"." * self.p.get("value_pad", 0)
         for j, (part, ts) in enumerate(prog):
             await world.gate(f"s{i}.{j}")
-            value = b"v%d.%d" % (i, j)
+            value = b"v%d.%d" % (i, j) + pad
             key = b"k%d" % j if j % 2 else None
             headers = [("h", b"%d" % j)] if j % 2 else []
             try:
@@ -454,7 +459,7 @@ class ProducerScenario:
         acks0 = not idem and p.get("acks", 1) == 0
         for a in self.accepted:
             v = a[3]
-            if p.get("send_batch") and v not in self.batch_futs:
+            if v in self.batch_values and v not in self.batch_futs:
                 continue  # send_batch() returns one future per batch, registered under its first record
             res = self.resolved.get(v, [])
             if len(res) > 1:
@@ -499,7 +504,7 @@ class ProducerScenario:
                 stored_ts = a[6]
             if md.timestamp_type != want_type:
                 self.fail("metadata", {"what": "timestamp-type"}, f"{v!r}: timestamp_type {md.timestamp_type}, topic applies {want_type}")
-            elif p.get("send_batch") and want_type == 0:
+            elif v in self.batch_futs and want_type == 0:
                 pass  # the batch future of send_batch() is not tied to one record's CreateTime timestamp
             elif a[6] is not None or want_type == 1:
                 if md.timestamp != stored_ts:
